@@ -216,6 +216,16 @@ def loop_depth(ast):
     return d + 1 if ast[0] in ("star", "plus") else d
 
 
+def simple_loops(ast, inside=False):
+    """No star/plus operand contains an alternation or a quantifier."""
+    if ast[0] in ("set", "dot"):
+        return True
+    if inside and ast[0] != "cat":
+        return False
+    inside = inside or ast[0] in ("star", "plus")
+    return all(simple_loops(x, inside) for x in ast[1:])
+
+
 def operators(ast, acc=None):
     acc = set() if acc is None else acc
     if ast[0] in ("cat", "alt", "star", "plus", "opt"):
@@ -363,15 +373,19 @@ class ReOracle:
             raise Discard("re rejects pattern: %s" % e)
         self.expect_error = None
         self.cache = {}
-        # re backtracks exponentially on loops nested three deep ('(((a*)+)+)*' on 'aaaac' takes 1 s);
-        # there the position-set matcher decides alone
-        self.use_re = loop_depth(self.ast) <= 2
+        # re backtracks exponentially: '(((a*)+)+)*' on 'aaaac' takes 1 s, '(a|a)*b' doubles with every
+        # 'a'.  re is asked for strings up to length 6 when loops nest at most two deep, and for longer
+        # strings only when no loop contains an alternation or another quantifier; elsewhere the
+        # position-set matcher decides alone.
+        self.re_short = loop_depth(self.ast) <= 2
+        self.re_long = simple_loops(self.ast)
 
     def member(self, s):
         r = self.cache.get(s)
         if r is None:
             r = ref_match(self.ast, s)
-            if self.use_re and (self.rx.fullmatch(s) is not None) != r:
+            use_re = self.re_long or (self.re_short and len(s) <= 6)
+            if use_re and (self.rx.fullmatch(s) is not None) != r:
                 raise Discard("oracle_disagreement")
             self.cache[s] = r
         return r
@@ -406,6 +420,49 @@ def check_strings(strings):
             raise Discard("string outside domain")
 
 
+STATE_CAP = 150
+
+
+def flat_alternatives(expr, out):
+    if type(expr).__name__ == "LogicalOr":
+        flat_alternatives(expr.lhs, out)
+        flat_alternatives(expr.rhs, out)
+    else:
+        out.append(expr)
+    return out
+
+
+def explosion(pattern):
+    """compile() explores the derivatives of the expression with a work list and has no bound of its
+    own.  Walk the same derivatives first: more than STATE_CAP distinct ones for these small
+    expressions (legitimate automata here have at most a few dozen states) means compile() would
+    not terminate in any useful time; reported without calling it."""
+    from ppci.lang.tools.regex import parse
+
+    expr = parse(pattern)
+    seen = {expr}
+    todo = [expr]
+    while todo:
+        state = todo.pop()
+        for dc in state.derivative_classes():
+            if not dc:
+                continue
+            nxt = state.derivative(dc.ranges[0][0])
+            if nxt not in seen:
+                seen.add(nxt)
+                todo.append(nxt)
+                if len(seen) > STATE_CAP:
+                    alts = flat_alternatives(nxt, [])
+                    dup = len(alts) - len(set(alts))
+                    return Failure(
+                        "explosion",
+                        "compile(%r) does not terminate: more than %d distinct derivative states (newest one is an "
+                        "alternation of %d operands, %d of them repeated)" % (pattern, STATE_CAP, len(alts), dup),
+                        duplicates=dup,
+                    )
+    return None
+
+
 def compile_failure(what, e, tb):
     frame = ppci_frame(tb)
     text = re.sub(r" at 0x[0-9a-f]+", "", str(e))
@@ -436,6 +493,11 @@ def evaluate(case, stats=None, oracle_cls=ReOracle):
     from ppci.lang.tools import regex as pregex
 
     try:
+        boom = explosion(pattern)
+        if boom is not None:
+            if stats is not None:
+                stats.evaluations += 1
+            return boom
         prog = pregex.compile(pattern)
     except Exception as e:
         if stats is not None:
@@ -571,6 +633,16 @@ def evaluate_tokens(case, stats=None, oracle_cls=ReOracle):
 
 KF1 = "C31-KF1"  # parser has no concatenation level: 'ab|c' is a(b|c), '(ab)' is rejected
 KF2 = "C31-KF2"  # compile(): KeyError when the NULL (error) state is unreachable, e.g. '.*'
+KF3 = "C31-KF3"  # '|' of derivatives is not normalised (ACI): compile('(aa+)*') never terminates
+
+
+def loop_over_cat(ast, inside=False):
+    if ast[0] in ("set", "dot"):
+        return False
+    if ast[0] == "cat" and inside:
+        return True
+    inside = inside or ast[0] in ("star", "plus")
+    return any(loop_over_cat(x, inside) for x in ast[1:])
 
 
 def no_dead_state(ast, alphabet):
@@ -588,10 +660,20 @@ def classify_failure(case, f):
     KF1: the whole case evaluates without any failure when the oracle is the language of the
          expression as the defective grammar reads it (or that grammar's 'Expected ) but got x').
     KF2: KeyError at compiler.py:compile for an expression with '.' whose language (as read by
-         either grammar) has no dead state."""
+         either grammar) has no dead state.
+    KF3: derivative-state explosion for an expression with a loop over a concatenation, where the
+         runaway derivative is an alternation with repeated operands."""
     if f is None:
         return None
     pats = [case["pattern"]] if "pattern" in case else [p for _n, p in case["tokens"]]
+    if f.kind == "explosion":
+        # KF3: a loop over a concatenation, and the runaway derivative repeats operands of '|'
+        try:
+            if f.info["duplicates"] > 0 and any(loop_over_cat(ref_parse(p)) for p in pats):
+                return KF3
+        except Unsupported:
+            pass
+        return None
     alphabet = case.get("alphabet", "abc")
     if f.kind == "compile" and f.info["exc"] == "KeyError" and f.info["frame"] == "compiler.py:compile":
         for p in pats:
@@ -755,26 +837,27 @@ def atom_strategy(allow_dot):
 
 
 @st.composite
-def gen_ast(draw, size, avoid_kf1, avoid_kf2, in_loop=False, level="top"):
+def gen_ast(draw, size, flags, in_loop=False, level="top"):
     """level (only with avoid_kf1): 'top' may be a concatenation, 'elem' may not."""
+    avoid_kf1, avoid_kf2, avoid_kf3 = flags
     if size <= 1:
         return draw(atom_strategy(not (avoid_kf2 and in_loop)))
     kinds = ["star", "plus", "opt", "alt", "alt"]
-    if not avoid_kf1 or level == "top":
+    if not (avoid_kf1 and level != "top") and not (avoid_kf3 and in_loop):
         kinds += ["cat", "cat", "cat"]
     k = draw(st.sampled_from(kinds))
     if k in UNARY:
-        x = draw(gen_ast(size - 1, avoid_kf1, avoid_kf2, in_loop or k != "opt", "elem"))
+        x = draw(gen_ast(size - 1, flags, in_loop or k != "opt", "elem"))
         return (k, x)
     ls = draw(st.integers(1, size - 2)) if size > 2 else 1
     rs = max(1, size - 1 - ls)
     if k == "cat":
-        x = draw(gen_ast(ls, avoid_kf1, avoid_kf2, in_loop, "top"))
-        y = draw(gen_ast(rs, avoid_kf1, avoid_kf2, in_loop, "elem" if avoid_kf1 else "top"))
+        x = draw(gen_ast(ls, flags, in_loop, "top"))
+        y = draw(gen_ast(rs, flags, in_loop, "elem" if avoid_kf1 else "top"))
         return ("cat", x, y)
     sub = "elem" if avoid_kf1 else "top"
-    x = draw(gen_ast(ls, avoid_kf1, avoid_kf2, in_loop, sub))
-    y = draw(gen_ast(rs, avoid_kf1, avoid_kf2, in_loop, sub))
+    x = draw(gen_ast(ls, flags, in_loop, sub))
+    y = draw(gen_ast(rs, flags, in_loop, sub))
     return ("alt", x, y)
 
 
@@ -798,9 +881,10 @@ def gen_member(draw, ast, depth=0):
 
 
 @st.composite
-def gen_case(draw, maxsize, avoid_kf1, avoid_kf2):
+def gen_case(draw, maxsize, flags):
     size = draw(st.integers(3, maxsize))
-    ast = draw(gen_ast(size, avoid_kf1, avoid_kf2))
+    ast = draw(gen_ast(size, flags))
+    avoid_kf1 = flags[0]
     full = draw(st.integers(0, 3)) == 0
     # under the KF1 exclusion the AST has concatenations only on the top-level spine, so the
     # minimal rendering (alternations under a concatenation are grouped) is read alike by both grammars
@@ -825,11 +909,11 @@ def gen_case(draw, maxsize, avoid_kf1, avoid_kf2):
 
 
 @st.composite
-def gen_token_case(draw, avoid_kf1, avoid_kf2):
+def gen_token_case(draw, flags):
     n = draw(st.integers(2, 3))
     toks = []
     for i in range(n):
-        ast = draw(gen_ast(draw(st.integers(1, 5)), avoid_kf1, avoid_kf2))
+        ast = draw(gen_ast(draw(st.integers(1, 5)), flags))
         toks.append(["t%d" % i, render(ast)])
     members = []
     for _n, p in toks:
@@ -841,7 +925,6 @@ def gen_token_case(draw, avoid_kf1, avoid_kf2):
 
 def _hyp_worker(arg):
     seed, n, maxsize, flags = arg
-    avoid_kf1, avoid_kf2 = flags
     stats = Stats()
 
     def prop(case):
@@ -865,22 +948,22 @@ def _hyp_worker(arg):
             if not re.fullmatch(case["pattern"], ""):
                 cls.append("scanner_checked")
         stats.case(key, nontriv, case if nontriv else None, classes=cls)
-        if avoid_kf1:
-            stats.excluded[KF1] += 1
-        if avoid_kf2:
-            stats.excluded[KF2] += 1
+        for kid, on in zip((KF1, KF2, KF3), flags):
+            if on:
+                stats.excluded[kid] += 1
         return None if f is None else f.msg
 
-    strat = st.one_of(gen_case(maxsize, avoid_kf1, avoid_kf2), gen_case(maxsize, avoid_kf1, avoid_kf2), gen_case(maxsize, avoid_kf1, avoid_kf2), gen_token_case(avoid_kf1, avoid_kf2))
+    strat = st.one_of(gen_case(maxsize, flags), gen_case(maxsize, flags), gen_case(maxsize, flags), gen_token_case(flags))
     fails = hyp_search(strat, prop, n, seed, stats, classify=classify, budget_s=600)
     return stats, fails
 
 
 def active_exclusions():
-    """An exclusion is active while its finding is open and its witness still reproduces."""
+    """An exclusion is active while its finding is open and its witness still reproduces
+    (KF3 hides behind KF1: while KF1 is present its exclusion subsumes KF3's)."""
     flags = []
     findings = {e["id"]: e for e in core.load_findings(PID) if e.get("status") == "open"}
-    for kid in (KF1, KF2):
+    for kid in (KF1, KF2, KF3):
         on = False
         e = findings.get(kid)
         if e is not None:
@@ -905,6 +988,6 @@ def run(ctx):
         % (maxsize, " ".join(ENUM_ATOMS), maxlen)
     )
     flags = active_exclusions()
-    ctx.extra["exclusions_active"] = {KF1: flags[0], KF2: flags[1]}
+    ctx.extra["exclusions_active"] = dict(zip((KF1, KF2, KF3), flags))
     n = ctx.scale(4000, 200000)
     ctx.pmap(_hyp_worker, [(subseed(ctx.seed, PID, w), n // 16, ctx.scale(10, 14), flags) for w in range(16)])
